@@ -359,6 +359,32 @@ class History:
                     self.emit('leave', struct.pack('<i', eid))
         return True
 
+    def stray(self):
+        """a well-formed update / call / position for an entity id that does not exist (never created, or not yet): the players fail on it
+        without any effect -- nothing may be delivered to some other entity or its subscribers"""
+        if self.game == 'wowp' or not self.world:
+            return False
+        unknown = 3000000 + self.rng.randint(0, 999)
+        while unknown in self.world:
+            unknown += 1
+        ent = self.rng.choice(list(self.world.values()))
+        view = self.views[ent['type']]
+        r = self.rng.random()
+        if r < 0.4 and view['methods']:
+            i = self.rng.randrange(len(view['methods']))
+            m = view['methods'][i]
+            body = b''.join(wire.encode(t, self.value(t), m['header']) for _, t in m['args'])
+            self.emit('method', struct.pack('<II', unknown, i) + bstream(body), id=unknown, stray=True, expect_error=True, garbage=True)
+        elif r < 0.7 and view['clientProps']:
+            i = self.rng.randrange(len(view['clientProps']))
+            name, size, t, flags = view['clientProps'][i]
+            self.emit('prop', struct.pack('<II', unknown, i) + bstream(wire.encode(t, self.value(t), 1)), id=unknown, stray=True, expect_error=True,
+                      prop=name, value=None, etype=None)
+        else:
+            self.emit('position', struct.pack('<ii', unknown, 0) + pack_bits(vec3(self.rng)) + pack_bits(vec3(self.rng)) + pack_bits(vec3(self.rng)) + b'\x00',
+                      id=unknown, stray=True, expect_error=True)
+        return True
+
     # ---- nested -------------------------------------------------------------------
     def nested(self):
         if 'nested' not in self.tab or self.game == 'wowp':
@@ -521,7 +547,7 @@ def expected_world(h):
 
 def generate(rng, views, dialect, n_events, weights=None, big=False, subscribed=None):
     h = History(rng, views, dialect, big=big, subscribed=subscribed)
-    w = dict(base=1, cell=1, create=6, prop=8, method=6, position=4, ppos=3, map=1, noise=4, nested=8, garbage=1)
+    w = dict(base=1, cell=1, create=6, prop=8, method=6, position=4, ppos=3, map=1, noise=4, nested=8, garbage=1, stray=1)
     if weights:
         w.update(weights)
     kinds = list(w)
@@ -556,4 +582,6 @@ def generate(rng, views, dialect, n_events, weights=None, big=False, subscribed=
             h.noise()
         elif k == 'nested':
             h.nested()
+        elif k == 'stray':
+            h.stray()
     return h
